@@ -10,7 +10,9 @@
      * the value TreeBandit reports for an arm is the C01 statistic of exactly the rewards filed under the query's leaf: for
        UCB1 the leaf policy (a freshly constructed policy over that single arm fitted on the leaf's list) holds sum, count,
        mean of the list and reports mean + alpha*sqrt(2 ln n / n) with n the size of the leaf, without touching the generator.
-    ..._partial: ThompsonSampling / EpsilonGreedy leaves draw (findings D6 / D7 concern their binarizer and generator);
+       ThompsonSampling (documented behaviour, no binarizer in the leaf): exactly one Beta request with parameters 1 + sum and
+       1 + size - sum of the leaf's rewards, whose single value is reported.
+    ..._partial: EpsilonGreedy leaves; findings D6 / D7 concern the leaf policies' binarizer and generator;
     finding D19: Clusters.remove_arm does not purge the stored history (a re-added arm reports 0 until the next training call). *)
 From Coq Require Import List ZArith Bool Arith QArith Qcanon Permutation.
 From MW Require Import Num Assoc AssocFacts Rng Par CF CFInv CFClean CFForget CFSpec Matrix Lin Warm WarmInv Nbr NbrFacts NbrIndep LshFacts Clu Tree CellFacts Mab FacadeCF FacadeArms MoreFacts NumLaws CFAlg Sim Extra QcInst OrderFacts ExpIrrel LinInv FacadeLin LpInv NbrInv CluTreeInv FacadeAll ToyFacts C09All C10All LinForget LinSim MatrixFacts GaussJordan LinSpec NbrIndepGen CluIndep C17Lin WarmIdem C14More LshScale TreeLeaf Rename.
@@ -91,5 +93,27 @@ Theorem C12_tree_reports_ucb_of_the_leaf_rewards :
   (spec_ucb N (c_hp (t_lp s)) (Z.of_nat (length rewards)) [rewards], g).
 Proof. exact @leaf_expectation_ucb. Qed.
 Print Assumptions C12_tree_reports_ucb_of_the_leaf_rewards.
+
+Theorem C12_tree_thompson_leaf_policy_holds_the_beta_parameters_of_the_leaf :
+  forall (R A : Type) (N : Num R) (aeqb : A -> A -> bool),
+  (forall x y : A, aeqb x y = true <-> x = y) ->
+  forall (a : A) (rewards : list R),
+  let l1 := cf_fit N aeqb (cf_init N KThompson (zero N) None [a]) (repeat a (length rewards)) rewards in
+  ts_arm_ok N aeqb l1 [rewards] a.
+Proof. exact @leaf_policy_thompson. Qed.
+Print Assumptions C12_tree_thompson_leaf_policy_holds_the_beta_parameters_of_the_leaf.
+
+Theorem C12_tree_thompson_reports_one_beta_draw_with_the_leaf_parameters :
+  forall (R A G : Type) (N : Num R) (aeqb : A -> A -> bool) (RG : RngOps R G),
+  (forall x y : A, aeqb x y = true <-> x = y) ->
+  forall (s : (@tree R A)) (g : G) (a : A) (rewards : list R),
+  c_kind (t_lp s) = KThompson ->
+  t_kf_rebin s = false ->
+  leaf_expectation N aeqb RG s g a rewards =
+  (let
+   '(v, g1) := draw_r RG g (RqBeta (spec_succ N [rewards]) (spec_fail N [rewards]) 1) in
+    (nth 0 v (zero N), g1)).
+Proof. exact @leaf_expectation_thompson. Qed.
+Print Assumptions C12_tree_thompson_reports_one_beta_draw_with_the_leaf_parameters.
 
 
